@@ -152,6 +152,9 @@ def templates(tier, seed):
     for n in (8, 12):
         for test in ("eq($i, 3)", "0", "gt($i, 100)"):
             tds.append(dict(fam="if-in-long-loop", body="rectvar", n=n, test=test))
+    for form in ("while", "until", "if", "while-sub"):
+        for k in (1, 2, 3):
+            tds.append(dict(fam="textvar", body="rectvar", form=form, k=k))
     for b in B:
         for n in (1, 2, 3):
             tds.append(dict(fam="count-var", body=b, n=n))
@@ -278,6 +281,30 @@ def build(td, wrong=False):
         # the twin is unrolled completely: each <if> is replaced by its body or by nothing
         taken = (lambda k: k == 3) if test == "eq($i, 3)" else (lambda k: False)
         un = "".join(f'<var i="{k}"/>{inner if taken(k) else ""}{rest}' for k in range(n))
+    elif fam == "textvar":
+        # variables that hold the text of an expression (assigned without braces) are values like any other: in a test they
+        # stand for their value, not for their text ("$i * 2" with i = "0 + 1" is 2)
+        k, form = td["k"], td["form"]
+        ky = alloc([(3, *V)])
+        body = f'<rect xy="{{{{3 * ($i)}}}} [[{ky}]]" wh="1"/>'
+        inc = '<var i="$i + 1"/>'
+        if form == "while":
+            loop = f'<var i="0"/><loop while="lt($i * 2, {2 * k})">{body}{inc}</loop>'
+            un = '<var i="0"/>' + (body + inc) * k
+        elif form == "while-sub":
+            loop = f'<var i="0"/><loop while="{k} - $i">{body}{inc}</loop>'
+            un = '<var i="0"/>' + (body + inc) * k
+        elif form == "until":
+            loop = f'<var i="0"/><loop until="ge($i * 2, {2 * k})">{body}{inc}</loop>'
+            un = '<var i="0"/>' + (body + inc) * k
+        elif form == "count":
+            loop = f'<var i="0" n="{k - 1} + 1"/><loop count="{{{{$n * 2}}}}">{body}{inc}</loop>'
+            un = f'<var i="0" n="{k - 1} + 1"/>' + (body + inc) * (2 * k)
+        else:
+            X = [f'<rect xy="{j} [[{ky}]]" wh="{j + 1}"/>' for j in range(4)]
+            loop = (f'<var a="{k}"/><var i="$a + 1"/><if test="eq($i * 2, {2 * k + 2})">{X[0]}</if><if test="eq(10 - $i, {9 - k})">{X[1]}</if><if test="eq($i * 2, {k + 2})">{X[2]}</if>'
+                    f'<if test="$i * 0">{X[3]}</if><if test="not(eq($i * 3, {3 * k + 3}))">{X[3]}</if>')
+            un = f'<var a="{k}"/><var i="$a + 1"/>{X[0]}{X[1]}'
     elif fam == "count-var":
         # the count is an expression over a variable that the body itself changes: it is evaluated once, on entry
         n = td["n"]
